@@ -9,10 +9,16 @@ pub struct Src<const N: usize> {
     pub data: [u8; N],
     pub len: usize,
     pub pos: usize,
+    /// the caller guarantees `len >= min_len` (concrete): reads that end at or before `min_len`
+    /// succeed without consulting the symbolic `len`, so their outcome stays a constant for symex
+    pub min_len: usize,
 }
 impl<const N: usize> Src<N> {
     pub fn new(data: [u8; N], len: usize) -> Self {
-        Src { data, len, pos: 0 }
+        Src { data, len, pos: 0, min_len: 0 }
+    }
+    pub fn with_min(data: [u8; N], len: usize, min_len: usize) -> Self {
+        Src { data, len, pos: 0, min_len }
     }
 }
 impl<const N: usize> Read for Src<N> {
@@ -26,7 +32,7 @@ impl<const N: usize> Read for Src<N> {
         Ok(n)
     }
     fn read_exact(&mut self, buf: &mut [u8]) -> io::Result<()> {
-        if self.len - self.pos < buf.len() {
+        if self.pos + buf.len() > self.min_len && self.len - self.pos < buf.len() {
             self.pos = self.len;
             return Err(io::Error::from(ErrorKind::UnexpectedEof));
         }
